@@ -1,9 +1,529 @@
-//! C20 — (stub; not built yet)
+//! C20 — contract violations are reported as errors before any output is written.
+//!
+//! op:  `<out|arr> <algo> <np> <p…> <nw> <w…> <npoints> <shape> <graph> <part_count> <iter_count> <tolerance f64 bits hex> <order>`
+//!      algo ∈ rcb rib greedy kk ckk vnbest vnfirst fm arcswap hilbert2d hilbert3d; `p` = the caller's
+//!      array before the call; weights are i64 (f64 for the Hilbert curve); `shape` selects the point set
+//!      (0 generic, 1 all identical, 2 collinear); `graph` is the size of an edgeless `CsMat<i64>`.
+//! out: `out` → `ok` | `err <Variant> [<fields>] untouched|modified` | `panic …`
+//!      `arr` → `same` | `zeros` | `changed` | `panic …`   (array after the call vs. before)
 
 use crate::common::*;
+use coupe::rayon::iter::IntoParallelRefIterator as _;
+use coupe::rayon::iter::ParallelIterator as _;
+use coupe::Partition as _;
+use coupe::{Point2D, Point3D};
+use std::collections::HashSet;
 
-pub fn generate(_ctx: &mut Ctx) {}
+const ALGOS: [&str; 11] = [
+    "rcb", "rib", "greedy", "kk", "ckk", "vnbest", "vnfirst", "fm", "arcswap", "hilbert2d", "hilbert3d",
+];
+/// `MAX_ORDER` of the two HilbertCurve impls as the property states them
+/// (independent of the translator: a changed constant shows up as a disagreement).
+const MAX_ORDER_2D: u32 = 32;
+const MAX_ORDER_3D: u32 = 21;
+
+#[derive(Clone, Debug)]
+struct Case {
+    kind: String,
+    algo: String,
+    p: Vec<usize>,
+    w: Vec<i64>,
+    npts: usize,
+    shape: usize,
+    graph: usize,
+    k: usize,
+    iter: usize,
+    tol: f64,
+    order: u32,
+}
+
+impl Case {
+    fn new(algo: &str, p: Vec<usize>, w: Vec<i64>) -> Case {
+        Case {
+            kind: "out".into(),
+            algo: algo.into(),
+            p,
+            w,
+            npts: 0,
+            shape: 0,
+            graph: 0,
+            k: 2,
+            iter: 1,
+            tol: 0.05,
+            order: 4,
+        }
+    }
+    fn format(&self, kind: &str) -> String {
+        format!(
+            "{} {} {} {} {} {} {} {} {} {} {} {:x} {}",
+            kind,
+            self.algo,
+            self.p.len(),
+            join(&self.p),
+            self.w.len(),
+            join(&self.w),
+            self.npts,
+            self.shape,
+            self.graph,
+            self.k,
+            self.iter,
+            self.tol.to_bits(),
+            self.order
+        )
+        .split_whitespace()
+        .collect::<Vec<_>>()
+        .join(" ")
+    }
+}
+
+fn parse_op(op: &str) -> Option<Case> {
+    let mut it = op.split_whitespace();
+    let kind = it.next()?.to_string();
+    if kind != "out" && kind != "arr" {
+        return None;
+    }
+    let algo = it.next()?.to_string();
+    if !ALGOS.contains(&algo.as_str()) {
+        return None;
+    }
+    let np: usize = it.next()?.parse().ok()?;
+    if np > 1 << 16 {
+        return None;
+    }
+    let mut p = Vec::with_capacity(np);
+    for _ in 0..np {
+        p.push(it.next()?.parse().ok()?);
+    }
+    let nw: usize = it.next()?.parse().ok()?;
+    if nw > 1 << 16 {
+        return None;
+    }
+    let mut w = Vec::with_capacity(nw);
+    for _ in 0..nw {
+        w.push(it.next()?.parse().ok()?);
+    }
+    let npts: usize = it.next()?.parse().ok()?;
+    let shape: usize = it.next()?.parse().ok()?;
+    let graph: usize = it.next()?.parse().ok()?;
+    let k: usize = it.next()?.parse().ok()?;
+    let iter: usize = it.next()?.parse().ok()?;
+    let tol = f64::from_bits(u64::from_str_radix(it.next()?, 16).ok()?);
+    let order: u32 = it.next()?.parse().ok()?;
+    if it.next().is_some() || npts > 1 << 16 || graph > 1 << 12 || k > 1 << 16 || iter > 8 {
+        return None;
+    }
+    Some(Case { kind, algo, p, w, npts, shape, graph, k, iter, tol, order })
+}
+
+fn points2(n: usize, shape: usize) -> Vec<Point2D> {
+    (0..n)
+        .map(|j| match shape {
+            1 => Point2D::new(1.0, 2.0),
+            2 => Point2D::new(j as f64, 0.0),
+            _ => Point2D::new(j as f64, ((j * j) % 5) as f64 + 0.25 * j as f64),
+        })
+        .collect()
+}
+
+fn points3(n: usize, shape: usize) -> Vec<Point3D> {
+    (0..n)
+        .map(|j| match shape {
+            1 => Point3D::new(1.0, 2.0, 3.0),
+            2 => Point3D::new(j as f64, 0.0, 0.0),
+            _ => Point3D::new(j as f64, ((j * j) % 5) as f64 + 0.25 * j as f64, ((j * 3) % 4) as f64),
+        })
+        .collect()
+}
+
+enum Res {
+    Ok,
+    Err(coupe::Error),
+    HErr(coupe::HilbertCurveError),
+}
+
+fn conv<M>(r: Result<M, coupe::Error>) -> Res {
+    match r {
+        Ok(_) => Res::Ok,
+        Err(e) => Res::Err(e),
+    }
+}
+
+/// Runs the real entry point on a copy of the array; returns the result and the array afterwards.
+fn run_impl(c: &Case) -> (Caught<Res>, Vec<usize>) {
+    let mut p = c.p.clone();
+    let w = c.w.clone();
+    let r = {
+        let p = &mut p[..];
+        catch(move || match c.algo.as_str() {
+            "rcb" => {
+                let pts = points2(c.npts, c.shape);
+                conv(
+                    coupe::Rcb { iter_count: c.iter, tolerance: c.tol }
+                        .partition(p, (pts.par_iter().cloned(), w.par_iter().cloned())),
+                )
+            }
+            "rib" => {
+                let pts = points2(c.npts, c.shape);
+                conv(coupe::Rib { iter_count: c.iter, tolerance: c.tol }.partition(p, (&pts[..], w.par_iter().cloned())))
+            }
+            "greedy" => conv(coupe::Greedy { part_count: c.k }.partition(p, w.iter().cloned())),
+            "kk" => conv(coupe::KarmarkarKarp { part_count: c.k }.partition(p, w.iter().cloned())),
+            "ckk" => conv(coupe::CompleteKarmarkarKarp { tolerance: c.tol }.partition(p, w.iter().cloned())),
+            "vnbest" => conv(coupe::VnBest.partition(p, w.iter().cloned())),
+            "vnfirst" => conv(coupe::VnFirst.partition(p, &w[..])),
+            "fm" => {
+                let adj = coupe::sprs::CsMat::<i64>::zero((c.graph, c.graph));
+                conv(
+                    coupe::FiducciaMattheyses { max_passes: Some(2), ..Default::default() }
+                        .partition(p, (adj.view(), &w[..])),
+                )
+            }
+            "arcswap" => {
+                let adj = coupe::sprs::CsMat::<i64>::zero((c.graph, c.graph));
+                conv(coupe::ArcSwap { max_imbalance: None }.partition(p, (adj.view(), &w[..])))
+            }
+            "hilbert2d" => {
+                let pts = points2(c.npts, c.shape);
+                let wf: Vec<f64> = w.iter().map(|&x| x as f64).collect();
+                match (coupe::HilbertCurve { part_count: c.k, order: c.order }).partition(p, (&pts[..], &wf)) {
+                    Ok(()) => Res::Ok,
+                    Err(e) => Res::HErr(e),
+                }
+            }
+            _ => {
+                let pts = points3(c.npts, c.shape);
+                let wf: Vec<f64> = w.iter().map(|&x| x as f64).collect();
+                match (coupe::HilbertCurve { part_count: c.k, order: c.order }).partition(p, (&pts[..], &wf)) {
+                    Ok(()) => Res::Ok,
+                    Err(e) => Res::HErr(e),
+                }
+            }
+        })
+    };
+    (r, p)
+}
+
+/// The other inputs whose length the property compares with the array's, in no particular order.
+fn other_lengths(c: &Case) -> Vec<usize> {
+    match c.algo.as_str() {
+        "rcb" | "rib" => vec![c.w.len(), c.npts],
+        "fm" | "arcswap" => vec![c.w.len(), c.graph],
+        "hilbert2d" | "hilbert3d" => vec![],
+        _ => vec![c.w.len()],
+    }
+}
 
 pub fn run_op(ctx: &mut Ctx, op: &str) {
-    ctx.record(op.to_string(), "bad-op".into(), false);
+    let Some(c) = parse_op(op) else {
+        ctx.record(op.to_string(), "bad-op".into(), false);
+        return;
+    };
+    let (res, p) = run_impl(&c);
+    let p0 = &c.p;
+    let n = p0.len();
+    let touched = if &p == p0 { "untouched" } else { "modified" };
+
+    if c.kind == "arr" {
+        let out = match &res {
+            Caught::Panic(m) => format!("panic {}", m),
+            Caught::Hang => "hang".into(),
+            Caught::Ok(_) => {
+                if &p == p0 {
+                    "same".to_string()
+                } else if p.iter().all(|&x| x == 0) {
+                    "zeros".to_string()
+                } else {
+                    "changed".to_string()
+                }
+            }
+        };
+        ctx.count(&format!("arr:{}", out.split(' ').next().unwrap_or("")));
+        ctx.record(op.to_string(), out, false);
+        return;
+    }
+
+    // ---- canonical line ------------------------------------------------------------
+    let out = match &res {
+        Caught::Ok(Res::Ok) => "ok".to_string(),
+        Caught::Ok(Res::Err(coupe::Error::NotFound)) => format!("err NotFound {}", touched),
+        Caught::Ok(Res::Err(coupe::Error::InputLenMismatch { expected, actual })) => {
+            format!("err InputLenMismatch {} {} {}", expected, actual, touched)
+        }
+        Caught::Ok(Res::Err(coupe::Error::NegativeValues)) => format!("err NegativeValues {}", touched),
+        Caught::Ok(Res::Err(coupe::Error::BiPartitioningOnly)) => format!("err BiPartitioningOnly {}", touched),
+        Caught::Ok(Res::Err(e)) => format!("err other {:?} {}", e, touched),
+        Caught::Ok(Res::HErr(coupe::HilbertCurveError::InvalidOrder { max, actual })) => {
+            format!("err InvalidOrder {} {} {}", max, actual, touched)
+        }
+        Caught::Ok(Res::HErr(e)) => format!("err other {:?} {}", e, touched),
+        Caught::Panic(m) => format!("panic {}", m),
+        Caught::Hang => "hang".into(),
+    };
+
+    // ---- oracle: the property, stated on the inputs, independent of the model ----------
+    let algo = c.algo.as_str();
+    let hilbert = algo.starts_with("hilbert");
+    let others = other_lengths(&c);
+    let mismatching: Vec<usize> = others.iter().cloned().filter(|&l| l != n).collect();
+    let max_id = p0.iter().cloned().max().unwrap_or(0);
+    let negative = c.w.iter().any(|&x| x < 0);
+    let max_order = if algo == "hilbert2d" { MAX_ORDER_2D } else { MAX_ORDER_3D };
+    let mut verdict: Option<(String, String)> = None;
+    let mut class = "valid";
+    let panicked = matches!(res, Caught::Panic(_) | Caught::Hang);
+    if hilbert {
+        if c.order > max_order {
+            class = "order-above-max";
+            let good = matches!(&res, Caught::Ok(Res::HErr(coupe::HilbertCurveError::InvalidOrder { max, actual }))
+                if *max == max_order && *actual == c.order);
+            if !good {
+                verdict = Some((format!("c20-invalid-order-not-reported:{}", algo), format!("order {} > {}: got `{}`", c.order, max_order, out)));
+            } else if &p != p0 {
+                verdict = Some((format!("c20-error-after-write:{}", algo), format!("InvalidOrder but the array changed: {:?} -> {:?}", p0, p)));
+            }
+        } else if c.npts != n || c.w.len() != n || c.k == 0 {
+            // HilbertCurve has no length validation and the property claims none: not judged
+            class = "outside-the-claim";
+        } else if !matches!(&res, Caught::Ok(Res::Ok)) {
+            verdict = Some((format!("c20-valid-input-rejected:{}", algo), format!("valid input, got `{}`", out)));
+        }
+    } else if !mismatching.is_empty() {
+        class = "len-mismatch";
+        let good = matches!(&res, Caught::Ok(Res::Err(coupe::Error::InputLenMismatch { expected, actual }))
+            if *expected == n && mismatching.contains(actual));
+        if panicked {
+            verdict = Some((format!("c20-panic-on-mismatch:{}", algo), format!("array {} vs other inputs {:?}: `{}`", n, others, out)));
+        } else if !good {
+            verdict = Some((format!("c20-mismatch-not-reported:{}", algo), format!("array {} vs other inputs {:?}: got `{}`", n, others, out)));
+        } else if &p != p0 {
+            verdict = Some((format!("c20-error-after-write:{}", algo), format!("InputLenMismatch but the array changed: {:?} -> {:?}", p0, p)));
+        }
+    } else if algo == "fm" && max_id > 1 {
+        class = "more-than-two-parts";
+        if !matches!(&res, Caught::Ok(Res::Err(coupe::Error::BiPartitioningOnly))) {
+            verdict = Some(("c20-bipart-not-reported:fm".into(), format!("max id {}: got `{}`", max_id, out)));
+        } else if &p != p0 {
+            verdict = Some(("c20-error-after-write:fm".into(), format!("BiPartitioningOnly but the array changed: {:?} -> {:?}", p0, p)));
+        }
+    } else if algo == "vnbest" && negative {
+        class = "negative-weight";
+        if !matches!(&res, Caught::Ok(Res::Err(coupe::Error::NegativeValues))) {
+            verdict = Some(("c20-negative-not-reported:vnbest".into(), format!("weights {:?}: got `{}`", c.w, out)));
+        } else if &p != p0 {
+            verdict = Some(("c20-error-after-write:vnbest".into(), format!("NegativeValues but the array changed: {:?} -> {:?}", p0, p)));
+        }
+    } else {
+        // nothing the property lists is violated
+        let outside = (algo == "ckk" && n > 0 && !((c.w.iter().sum::<i64>() as f64 * c.tol).abs() < 9.0e18))
+            || max_id == usize::MAX;
+        if outside {
+            // non-finite tolerance / an id of usize::MAX with otherwise valid input: not among the
+            // violations the property lists; the model predicts the outcome, the oracle does not judge
+            class = "outside-the-claim";
+        } else {
+            match &res {
+                Caught::Ok(Res::Ok) => {
+                    // shortcuts with a documented effect
+                    let zeros = p.iter().all(|&x| x == 0);
+                    if (algo == "greedy" && c.k < 2 || algo == "kk" && (c.k < 2 || n < 2)) && !zeros {
+                        verdict = Some((format!("c20-single-part-not-written:{}", algo), format!("Ok but the array is {:?}", p)));
+                    }
+                }
+                Caught::Ok(Res::Err(coupe::Error::NotFound)) if algo == "ckk" => {
+                    if &p != p0 {
+                        verdict = Some(("c20-error-after-write:ckk".into(), "NotFound but the array changed".into()));
+                    }
+                }
+                _ => {
+                    verdict = Some((format!("c20-valid-input-rejected:{}", algo), format!("valid input, got `{}`", out)));
+                }
+            }
+        }
+    }
+    // in every class: an error never comes with a modified array
+    if verdict.is_none() && out.starts_with("err") && &p != p0 {
+        verdict = Some((format!("c20-error-after-write:{}", algo), format!("`{}`: {:?} -> {:?}", out, p0, p)));
+    }
+
+    ctx.count(&format!("class:{}", class));
+    ctx.count(&format!("algo:{}", algo));
+    ctx.count(&format!("out:{}", out.split(' ').take(2).filter(|t| !t.contains(':') && !t.contains('/')).collect::<Vec<_>>().join(" ")));
+    let nontrivial = class != "valid" || n > 0;
+    let idx = ctx.record(op.to_string(), out, nontrivial);
+    if let Some((sig, what)) = verdict {
+        ctx.fail(idx, &sig, what);
+    }
+}
+
+// ------------------------------------------------------------------ generator
+
+/// Initial contents of an array of length `n` whose maximum id is `m`: the maximum first,
+/// and the maximum last over a cyclic filling.
+fn arrays(n: usize, ms: &[usize]) -> Vec<Vec<usize>> {
+    if n == 0 {
+        return vec![vec![]];
+    }
+    let mut v: Vec<Vec<usize>> = Vec::new();
+    for &m in ms {
+        let mut a = vec![0; n];
+        a[0] = m;
+        let mut b: Vec<usize> = (0..n).map(|j| j % (m + 1)).collect();
+        b[n - 1] = m;
+        for x in [a, b] {
+            if !v.contains(&x) {
+                v.push(x);
+            }
+        }
+    }
+    v
+}
+
+fn emit(ctx: &mut Ctx, seen: &mut HashSet<String>, c: &Case) {
+    let line = c.format("out");
+    if !seen.insert(line.clone()) {
+        return;
+    }
+    run_op(ctx, &line);
+    run_op(ctx, &c.format("arr"));
+}
+
+pub fn generate(ctx: &mut Ctx) {
+    let maxlen = if ctx.quick() { 3usize } else { 5 };
+    let lens: Vec<usize> = (0..=maxlen).collect();
+    let all_ids = [0usize, 1, 2, 3];
+    let mut seen: HashSet<String> = HashSet::new();
+    let ones = |n: usize| vec![1i64; n];
+
+    for &n in &lens {
+        // ---- Greedy, KarmarkarKarp: array x weights x part_count (0 is outside the contract)
+        for p in arrays(n, &all_ids) {
+            for &nw in &lens {
+                let w: Vec<i64> = (1..=nw as i64).collect();
+                for k in [0usize, 1, 2, 3] {
+                    for algo in ["greedy", "kk"] {
+                        let mut c = Case::new(algo, p.clone(), w.clone());
+                        c.k = k;
+                        emit(ctx, &mut seen, &c);
+                    }
+                }
+                // ---- CompleteKarmarkarKarp: tolerance corners (NaN / inf: conversion panics)
+                for tol in [0.0, 0.5, f64::NAN, f64::INFINITY] {
+                    let mut ws = vec![vec![0i64; nw]];
+                    if nw % 2 == 0 && nw > 0 {
+                        ws.push(ones(nw));
+                    }
+                    for w in ws {
+                        let mut c = Case::new("ckk", p.clone(), w);
+                        c.tol = tol;
+                        emit(ctx, &mut seen, &c);
+                    }
+                }
+                // ---- VnBest, VnFirst: all zero / all one / a negative weight at every position
+                let mut ws: Vec<Vec<i64>> = vec![vec![0; nw], ones(nw)];
+                for j in 0..nw {
+                    let mut w = ones(nw);
+                    w[j] = -1;
+                    ws.push(w);
+                    let mut w = vec![0i64; nw];
+                    w[j] = -3;
+                    ws.push(w);
+                }
+                for w in ws {
+                    for algo in ["vnbest", "vnfirst"] {
+                        emit(ctx, &mut seen, &Case::new(algo, p.clone(), w.clone()));
+                    }
+                }
+                // ---- FiducciaMattheyses, ArcSwap: x graph size
+                for &g in &lens {
+                    for algo in ["fm", "arcswap"] {
+                        let mut c = Case::new(algo, p.clone(), ones(nw));
+                        c.graph = g;
+                        emit(ctx, &mut seen, &c);
+                    }
+                }
+            }
+        }
+        // ---- Rcb, Rib: x weights x points (three shapes) x iter_count x tolerance
+        for p in arrays(n, &[0, 3]) {
+            for &nw in &lens {
+                for &npts in &lens {
+                    let shapes: &[usize] = if npts >= 2 { &[0, 1, 2] } else { &[0] };
+                    for &shape in shapes {
+                        for iter in [0usize, 1] {
+                            for tol in [0.0, 0.05] {
+                                for algo in ["rcb", "rib"] {
+                                    let mut c = Case::new(algo, p.clone(), ones(nw));
+                                    c.npts = npts;
+                                    c.shape = shape;
+                                    c.iter = iter;
+                                    c.tol = tol;
+                                    emit(ctx, &mut seen, &c);
+                                }
+                            }
+                        }
+                    }
+                }
+            }
+        }
+        // ---- HilbertCurve
+        for (algo, max) in [("hilbert2d", MAX_ORDER_2D), ("hilbert3d", MAX_ORDER_3D)] {
+            let p = arrays(n, &[3]).pop().unwrap();
+            // above the maximum: every combination of lengths
+            for order in [max + 1, 64, u32::MAX] {
+                for &npts in &lens {
+                    for &nw in &lens {
+                        let mut c = Case::new(algo, p.clone(), ones(nw));
+                        c.npts = npts;
+                        c.order = order;
+                        emit(ctx, &mut seen, &c);
+                    }
+                }
+            }
+            // acceptable orders: valid input in three shapes, and an empty array with any points
+            for order in [0, 1, max] {
+                let shapes: &[usize] = if n >= 2 { &[0, 1, 2] } else { &[0] };
+                for &shape in shapes {
+                    for k in [1usize, 2, 3] {
+                        let mut c = Case::new(algo, p.clone(), ones(n));
+                        c.npts = n;
+                        c.shape = shape;
+                        c.k = k;
+                        c.order = order;
+                        emit(ctx, &mut seen, &c);
+                    }
+                }
+                if n == 0 {
+                    for &npts in &lens {
+                        let mut c = Case::new(algo, vec![], ones(npts));
+                        c.npts = npts;
+                        c.order = order;
+                        emit(ctx, &mut seen, &c);
+                    }
+                } else {
+                    // outside the claim (documented): no points for a non-empty array
+                    let mut c = Case::new(algo, p.clone(), ones(n));
+                    c.npts = 0;
+                    c.order = order;
+                    emit(ctx, &mut seen, &c);
+                }
+            }
+        }
+    }
+    // ---- an id of usize::MAX (`1 + max` overflows)
+    for p in [vec![usize::MAX], vec![0, usize::MAX]] {
+        for nw in 0..=2usize {
+            for algo in ["vnbest", "vnfirst", "fm", "arcswap"] {
+                let mut c = Case::new(algo, p.clone(), ones(nw));
+                c.graph = p.len();
+                emit(ctx, &mut seen, &c);
+            }
+        }
+    }
+    ctx.notes.push(format!(
+        "exhaustive grid: lengths 0..={} of the array and of every other input x array contents with maximum id 0..3 \
+         (maximum first / last) x part_count 0..3 x iter_count 0/1 x tolerances x a negative weight at every position \
+         x Hilbert orders {{0,1,max,max+1,64,u32::MAX}}; {} distinct cases, each run as `out` (variant) and `arr` (array state)",
+        maxlen,
+        seen.len()
+    ));
 }
